@@ -161,6 +161,7 @@ theorem lookup_setCompL_other : ∀ (l : List (Str × Str × Comp)) (k nm k' nm'
 /-- a successful add<Kind>ToSpec call that rewrote cell `c`: name `nm`, logged event `ev` -/
 structure Rewrote (h : Heap) (s : St) (c : Nat) (pext : Bool) (s' : St) (nm : Str) (ev : Ev) : Prop where
   ext : isExternalRef s.refs[c]! pext = true
+  hasVal : 0 ≤ (cellOf h c).val
   name : ∃ amb, defaultName (rootInfo h s (cellOf h c).k)
             { ref := s.refs[c]!, refPath := (cellOf h c).refPath, coll := (cellOf h c).k } = .name nm amb
   refs : s'.refs = s.refs.set! c (mkRef (cellOf h c).k nm)
@@ -180,12 +181,18 @@ structure Rewrote (h : Heap) (s : St) (c : Nat) (pext : Bool) (s' : St) (nm : St
 
 theorem addCore_cases (h : Heap) (s : St) (c : Nat) (pext b : Bool) (s' : St)
     (hr : addCore h s c pext = .ok (b, s')) :
-    (isExternalRef s.refs[c]! pext = false ∧ b = false ∧ s' = { s with log := .notExternal c pext :: s.log }) ∨
+    (((cellOf h c).val < 0 ∨ isExternalRef s.refs[c]! pext = false) ∧ b = false ∧
+      s' = { s with log := .notExternal c pext :: s.log }) ∨
     (b = true ∧ ∃ nm ev, Rewrote h s c pext s' nm ev) := by
   unfold addCore at hr
   simp only [] at hr
+  by_cases hv : (cellOf h c).val < 0
+  · simp only [hv, decide_true, Bool.true_or, if_true] at hr
+    cases hr
+    exact Or.inl ⟨Or.inl hv, rfl, rfl⟩
+  have hv' : 0 ≤ (cellOf h c).val := by omega
   by_cases hx : isExternalRef s.refs[c]! pext = true
-  · simp only [hx, Bool.not_true, Bool.false_eq_true, if_false] at hr
+  · simp only [hv, decide_false, Bool.false_or, hx, Bool.not_true, Bool.false_eq_true, if_false] at hr
     right
     split at hr
     · cases hr
@@ -196,17 +203,17 @@ theorem addCore_cases (h : Heap) (s : St) (c : Nat) (pext b : Bool) (s' : St)
         split at hr
         · rename_i hk
           cases hr
-          exact ⟨rfl, nm, _, ⟨hx, ⟨amb, hname⟩, rfl, rfl, rfl, rfl, rfl, rfl, rfl,
+          exact ⟨rfl, nm, _, ⟨hx, hv', ⟨amb, hname⟩, rfl, rfl, rfl, rfl, rfl, rfl, rfl,
             Or.inr ⟨e, hl, rfl, Or.inr ⟨by simpa using hk, rfl⟩⟩⟩⟩
         · cases hr
-          exact ⟨rfl, nm, _, ⟨hx, ⟨amb, hname⟩, rfl, rfl, rfl, rfl, rfl, rfl, rfl, Or.inr ⟨e, hl, rfl, Or.inl rfl⟩⟩⟩
+          exact ⟨rfl, nm, _, ⟨hx, hv', ⟨amb, hname⟩, rfl, rfl, rfl, rfl, rfl, rfl, rfl, Or.inr ⟨e, hl, rfl, Or.inl rfl⟩⟩⟩
       · rename_i hl
         cases hr
-        exact ⟨rfl, nm, _, ⟨hx, ⟨amb, hname⟩, rfl, rfl, rfl, rfl, rfl, rfl, rfl, Or.inl ⟨hl, rfl, rfl⟩⟩⟩
+        exact ⟨rfl, nm, _, ⟨hx, hv', ⟨amb, hname⟩, rfl, rfl, rfl, rfl, rfl, rfl, rfl, Or.inl ⟨hl, rfl, rfl⟩⟩⟩
   · have hx' : isExternalRef s.refs[c]! pext = false := by simpa using hx
-    simp only [hx', Bool.not_false, if_true] at hr
+    simp only [hv, decide_false, Bool.false_or, hx', Bool.not_false, if_true] at hr
     cases hr
-    exact Or.inl ⟨hx', rfl, rfl⟩
+    exact Or.inl ⟨Or.inr hx', rfl, rfl⟩
 
 
 /-! ### invariants of the primitive steps -/
@@ -242,19 +249,22 @@ theorem set_nil_cases (a : Array Str) (i j : Nat) : (a.set! i [])[j]! = [] ∨ (
     exact ⟨hij, get_set_ne a i j [] hij⟩
 
 /-- (i) every visited cell holds an empty text or one under `#/components/` -/
-def InvText (s : St) : Prop := ∀ c ∈ touched s, intText s.refs[c]! = true
+def InvText (h : Heap) (s : St) : Prop := ∀ c ∈ touched s, 0 ≤ valOf h c → intText s.refs[c]! = true
 
-theorem invText_step (h : Heap) (s t : St) (hi : InvText s) (st : Step h s t) : InvText t := by
+theorem invText_step (h : Heap) (s t : St) (hi : InvText h s) (st : Step h s t) : InvText h t := by
   cases st with
   | add c pext b _ hr =>
     rcases addCore_cases h s c pext b t hr with ⟨hx, _, ht⟩ | ⟨_, nm, ev, rw⟩
     · subst ht
-      intro x hxm
+      intro x hxm hv
       simp only [touched, List.map_cons, List.mem_cons] at hxm
       rcases hxm with hxc | hxo
-      · simp only [Ev.cell] at hxc; subst hxc; exact intText_of_not_external _ _ hx
-      · exact hi x hxo
-    · intro x hxm
+      · simp only [Ev.cell] at hxc; subst hxc
+        rcases hx with hneg | hne
+        · exfalso; unfold valOf at hv; omega
+        · exact intText_of_not_external _ _ hne
+      · exact hi x hxo hv
+    · intro x hxm hv
       simp only [touched, rw.log, List.map_cons, List.mem_cons] at hxm
       rw [rw.refs]
       by_cases hxc : c = x
@@ -264,19 +274,19 @@ theorem invText_step (h : Heap) (s t : St) (hi : InvText s) (st : Step h s t) : 
       · rw [get_set_ne _ _ _ _ hxc]
         rcases hxm with hxe | hxo
         · rw [rw.evc] at hxe; exact absurd hxe.symm hxc
-        · exact hi x hxo
+        · exact hi x hxo hv
   | clear c =>
-    intro x hxm
+    intro x hxm hv
     rcases set_nil_cases s.refs c x with h0 | ⟨_, h1⟩
     · show intText ((s.refs.set! c [])[x]!) = true
       rw [h0]; rfl
     · show intText ((s.refs.set! c [])[x]!) = true
-      rw [h1]; exact hi x hxm
+      rw [h1]; exact hi x hxm hv
   | enter p fl => exact hi
   | silent _ hr _ _ hl _ _ =>
-    intro x hxm
+    intro x hxm hv
     rw [hr]
-    apply hi
+    apply hi _ _ hv
     simpa [touched, hl] using hxm
 
 /-- a cell that was loaded with an empty text keeps it -/
@@ -568,6 +578,34 @@ theorem invKept_step (h : Heap) (s t : St) (hi : InvKept h s) (st : Step h s t) 
   | enter p fl => exact congr _ rfl
   | silent _ _ _ hc _ _ _ => exact congr t hc
 
+/-- a reference the loader left without value is never given a name (05c5875): its text is as loaded, or cleared -/
+def InvNil (h : Heap) (s : St) : Prop := ∀ c, valOf h c < 0 → s.refs[c]! = origRef h c ∨ s.refs[c]! = []
+
+theorem invNil_step (h : Heap) (s t : St) (hi : InvNil h s) (st : Step h s t) : InvNil h t := by
+  cases st with
+  | add c pext b _ hr =>
+    rcases addCore_cases h s c pext b t hr with ⟨_, _, ht⟩ | ⟨_, nm, ev, rw⟩
+    · subst ht; exact hi
+    · intro x hv
+      rw [rw.refs]
+      by_cases hxc : c = x
+      · subst hxc
+        exfalso
+        have := rw.hasVal
+        unfold valOf at hv
+        omega
+      · rw [get_set_ne _ _ _ _ hxc]; exact hi x hv
+  | clear c =>
+    intro x hv
+    rcases set_nil_cases s.refs c x with h0 | ⟨_, h1⟩
+    · exact Or.inr h0
+    · show (s.refs.set! c [])[x]! = origRef h x ∨ (s.refs.set! c [])[x]! = []
+      rw [h1]; exact hi x hv
+  | enter p fl => exact hi
+  | silent _ hr _ _ _ _ _ =>
+    intro x hv
+    rw [hr]; exact hi x hv
+
 /-- a component entry differs from the loaded one only if a reference of that very collection was given that name: the
 nine collections are separate tables (the model's `addCore` looks up and stores under the cell's own collection; the
 code: obligation `add_uses_own_kind_map`) -/
@@ -606,6 +644,7 @@ theorem invOwn_step (h : Heap) (s t : St) (hi : InvOwn h s) (st : Step h s t) : 
   | enter p fl => exact weaken _ rfl (fun _ he => he)
   | silent _ _ _ hc hl _ _ => exact weaken t hc (fun e he => by rw [hl]; exact he)
 
+theorem invNil_init (h : Heap) : InvNil h (initSt h) := fun _ _ => Or.inl rfl
 theorem invOwn_init (h : Heap) : InvOwn h (initSt h) := fun _ _ => Or.inl rfl
 
 /-! ### reading the final state -/
@@ -706,7 +745,7 @@ theorem named_resolves (h : Heap) (s : St) (hk : kindsPlain h = true) (hnames : 
 
 theorem origRef_init (h : Heap) (c : Nat) : (initSt h).refs[c]! = origRef h c := rfl
 
-theorem invText_init (h : Heap) : InvText (initSt h) := by intro c hc; simp [touched, initSt] at hc
+theorem invText_init (h : Heap) : InvText h (initSt h) := by intro c hc; simp [touched, initSt] at hc
 theorem invEmpty_init (h : Heap) : InvEmpty h (initSt h) := by intro c hc; rw [origRef_init]; exact hc
 theorem invShape_init (h : Heap) : InvShape h (initSt h) := fun c => Or.inr (Or.inl (origRef_init h c))
 theorem invNames_init (h : Heap) : InvNames h (initSt h) := by intro _ ev hev; simp [initSt] at hev
